@@ -136,7 +136,7 @@ def optimal(
     output = binner.new_bins(numbins)
     for ibin in ibins:
         for iitem in iitems:
-            count_item_in_bin = int(counts[iitem][ibin].x)
+            count_item_in_bin = int(round(counts[iitem][ibin].x))   # the solver returns integer variables only up to its integrality tolerance (e.g. 0.9999999)
             for _ in range(count_item_in_bin):
                 binner.add_item_to_bin(output, items[iitem], ibin)
     binner.sort_by_ascending_sum(output)
